@@ -105,34 +105,26 @@ namespace _fmt_basics {
 		char buffer[64];
 
 		int k = 0; // number of digits
-		int c = 0; // number of chars since last grouping
-		int g = 0; // grouping index
-		int r = 0; // amount of times we repeated the last grouping
 		size_t extra = 0; // extra chars printed due to seperator
 
-		auto step_grouping = [&] () {
-			if (!group_thousands)
-				return;
+		// Returns true if a separator belongs behind a digit that has p less
+		// significant digits to its right. The grouping string lists the group
+		// sizes starting at the least significant group; its last element repeats
+		// and a non-positive element or CHAR_MAX ends the grouping.
+		auto separator_after = [&] (int p) {
+			if(!group_thousands)
+				return false;
 
-			if (++c == locale_opts.grouping[g]) {
-				if (locale_opts.grouping[g + 1] > 0)
-					g++;
-				else
-					r++;
-				c = 0;
-				extra += locale_opts.thousands_sep_size;
-			}
-		};
-
-		auto emit_grouping = [&] () {
-			if (!group_thousands)
-				return;
-
-			if (--c == 0) {
-				sink.append(locale_opts.thousands_sep);
-				if (g > 0 && (!r || !--r))
-					g--;
-				c = locale_opts.grouping[g];
+			int boundary = 0;
+			for(int g = 0; ; g++) {
+				int size = static_cast<signed char>(locale_opts.grouping[g]);
+				if(size <= 0 || size == 127)
+					return false;
+				boundary += size;
+				if(boundary >= p)
+					return boundary == p;
+				if(!locale_opts.grouping[g + 1])
+					return !((p - boundary) % size);
 			}
 		};
 
@@ -143,16 +135,13 @@ namespace _fmt_basics {
 				FRG_ASSERT(k < 64); // TODO: variable number of digits
 				buffer[k++] = digits[number % radix];
 				number /= radix;
-				step_grouping();
 			} while(number);
 		}
 
-		if (k < precision)
-			for (int i = 0; i < precision - k; i++)
-				step_grouping();
-
-		if (!c)
-			c = locale_opts.grouping[g];
+		// Separators only go between digits, never behind the last or in front of the first one.
+		for(int p = 1; p < max(k, precision); p++)
+			if(separator_after(p))
+				extra += locale_opts.thousands_sep_size;
 
 		char sign = 0;
 		if(negative)
@@ -186,15 +175,17 @@ namespace _fmt_basics {
 				sink.append('0');
 
 		if(k < precision) {
-			for(int i = 0; i < precision - k; i++) {
+			for(int i = precision - 1; i >= k; i--) {
 				sink.append('0');
-				emit_grouping();
+				if(i && separator_after(i))
+					sink.append(locale_opts.thousands_sep);
 			}
 		}
 
 		for(int i = k - 1; i >= 0; i--) {
 			sink.append(buffer[i]);
-			emit_grouping();
+			if(i && separator_after(i))
+				sink.append(locale_opts.thousands_sep);
 		}
 
 		if(left_justify && final_width < width)
